@@ -290,6 +290,29 @@ RECURSION_TABLE = {
 }
 
 
+def _iterator_stack(fi, w, colls) -> bool:
+    """`x = next(S[-1], d)` at the head of the body, S popped when the iterator is exhausted"""
+    if not w.body:
+        return False
+    s0 = w.body[0]
+    if not (isinstance(s0, ast.Assign) and isinstance(s0.value, ast.Call) and attr_chain(s0.value.func) == "next" and len(s0.value.args) == 2):
+        return False
+    a = s0.value.args[0]
+    if not (isinstance(a, ast.Subscript) and unparse(a.value) in colls and unparse(a.slice) == "-1"):
+        return False
+    return any(isinstance(c, ast.Call) and isinstance(c.func, ast.Attribute) and c.func.attr == "pop" and unparse(c.func.value) == unparse(a.value)
+               for c in ast.walk(w))
+
+
+def _iterator_advance(fi, w, cond_names) -> bool:
+    """every path through the loop body re-assigns a variable of the condition from next(it, default) (top-level statement)"""
+    for s in w.body:
+        if isinstance(s, ast.Assign) and len(s.targets) == 1 and isinstance(s.targets[0], ast.Name) and s.targets[0].id in cond_names \
+                and isinstance(s.value, ast.Call) and attr_chain(s.value.func) == "next" and len(s.value.args) == 2:
+            return True
+    return False
+
+
 def rule_R7(ctx, prj, fns):
     ctx.rule("R7", "termination: every while loop on the analysis path has a variant (an unconditional step of a variable "
                    "of its condition, an unconditional pop of the collection it tests, or a worklist guarded by a marked "
@@ -327,10 +350,28 @@ def rule_R7(ctx, prj, fns):
                                 and x.func.attr in ("add", "append") and unparse(x.func.value) == coll]
                         if adds:
                             guarded = True
+                over_automaton = any(a in unparse(w) for a in ("epsilon_transitions", ".transition"))
                 if guarded:
                     ctx.ok("R7", fi.site(w), f"{key}: worklist with a marked set")
+                elif over_automaton:
+                    ctx.viol("R7", key, fi.site(w), "worklist loop over automaton states re-queues items without an 'already marked' test: does not terminate on cyclic automata")
                 else:
-                    ctx.viol("R7", key, fi.site(w), "worklist loop re-queues items without an 'already marked' test: does not terminate on cyclic automata")
+                    ctx.ok("R7", fi.site(w), f"{key}: worklist that pops one item per round and pushes what hangs below it (scope trees / iterator stacks are finite and acyclic)")
+            elif _iterator_stack(fi, w, cond_names | cond_attrs):
+                over_automaton = any(a in unparse(w) for a in ("epsilon_transitions", ".transition"))
+                guarded = False
+                for p in pushes:
+                    for elem, coll in c13._membership_guard(fi, p):
+                        if any(isinstance(x, ast.Call) and isinstance(x.func, ast.Attribute) and x.func.attr in ("add", "append") and unparse(x.func.value) == coll
+                               for x in ast.walk(w)):
+                            guarded = True
+                if over_automaton and not guarded:
+                    ctx.viol("R7", key, fi.site(w), "stack-of-iterators walk over automaton states pushes successors without an 'already marked' test: does not terminate on cyclic automata")
+                else:
+                    ctx.ok("R7", fi.site(w), f"{key}: stack of iterators - every round consumes one element of a finite iterator or pops an exhausted one"
+                                             + ("; successors pushed only for unmarked states" if over_automaton else ""))
+            elif _iterator_advance(fi, w, cond_names):
+                ctx.ok("R7", fi.site(w), f"{key}: a variable of the condition is advanced by next(<iterator>, <default>) in every round (finite iterator)")
             elif not any_change and not exits:
                 ctx.viol("R7", key, fi.site(w), f"nothing in the loop body changes {sorted(cond_names | cond_attrs)} and there is no break/return: "
                          f"once the condition holds the loop never ends (the analysis hangs on such input)")
@@ -363,6 +404,59 @@ def rule_R7(ctx, prj, fns):
             ctx.info(f"new recursive function on the analysis path, not in the admitted table: {fi.disp}")
 
 
+def rule_R9_brackets(ctx, prj):
+    from ..absint import Unknown
+    from .. import brackets_eval
+    ctx.rule("R9", "block matching is total: get_balanced_symbol_token_indices evaluated on every sequence over {opening, closing, "
+                   "other} up to length 4 (with and without nested extraction) raises nothing - in particular a closing symbol "
+                   "without a pending opening one - and returns the reference pairs", floor=1)
+    fi = prj.func(brackets_eval.QUAL)
+    try:
+        n, div = brackets_eval.explore(prj)
+    except Unknown as e:
+        ctx.info(f"block matching not evaluable ({e}); not judged")
+        ctx.rule("R9", "block matching not evaluable: not judged (C01-R4 has the structural reading)", floor=0)
+        return
+    if div is None:
+        ctx.ok("R9", fi.site(), f"{n} token sequences: no exception, reference pairs")
+    else:
+        seq, nested, got, want = div
+        kind = "raises" if isinstance(got, str) else "pairs"
+        ctx.viol("R9", f"get_balanced_symbol_token_indices/{kind}", fi.site(),
+                 f"for the token sequence {seq!r} (O opening, C closing, X other; extract_nested={nested}) the function {got if isinstance(got, str) else 'returns ' + str(got)}; "
+                 f"required {want}" + (": a stray closing brace (a file whose top was cut off, a duplicated `}` line) aborts the analysis" if kind == "raises" else ""))
+
+
+def rule_R8_totality(ctx, prj) -> bool:
+    from ..absint import PyRaise, Unknown
+    from .. import walk_eval as W
+    ctx.rule("R8", "scan_path and check_command evaluated to the end on a virtual tree in which every file's bytes are invalid "
+                   "UTF-8 and which contains names without lexer, a lexer of an unsupported language, hidden and excluded entries: "
+                   "no exception escapes (decoding, lexer lookup, language registry, relative paths), reached as root, relative "
+                   "root, directory or file inside and outside the working directory; _scan_file, _analyze_file, check_file, "
+                   "_read_file and CheckResult.report are interpreted, only hashing, lexing and measuring are stubbed", floor=5)
+    MECH = {"UnicodeDecodeError": ("undecodable-crash", "a file that is not valid UTF-8 crashes the command"),
+            "ClassNotFound": ("classnotfound", "a file name without lexer aborts the command"),
+            "KeyError": ("by_name-unguarded", "a lexer whose language is not supported (or a key that is absent) raises KeyError"),
+            "ValueError": ("relative_to", "a path that does not lie under the expected directory raises ValueError")}
+    try:
+        for desc, exc, node, lab in W.totality_scenarios(prj):
+            q = "codelimit.common.Scanner:scan_path" if desc.startswith("scan") else "codelimit.commands.check:check_command"
+            fi = prj.func(q)
+            if exc is None:
+                ctx.ok("R8", fi.site(), f"{desc}: runs to the end, {len(set(lab.vfs.read_log))} files read")
+            else:
+                key, why = MECH.get(exc, ("escapes", "an exception escapes"))
+                site = getattr(node, "_site", None) or (f"{fi.module.rel}:{getattr(node, 'lineno', fi.node.lineno)}" if node is not None else fi.site())
+                ctx.viol("R8", f"{fi.local}/{key}/{exc}", site, f"{desc}: {exc} escapes ({why})")
+    except Unknown as e:
+        ctx.info(f"pipelines not evaluable ({e}); the must-guard rules R1/R2/R4 decide")
+        ctx.rule("R8", "pipelines not evaluable by the interpreter: must-guard rules R1/R2/R4 decide", floor=0)
+        ctx.violations[:] = [v for v in ctx.violations if v.rule != "R8"]
+        return False
+    return True
+
+
 def run(ctx, prj: Project):
     ctx.explanation = (
         "One exact sub-rule per failure mechanism the property names: decoding (must-guard with a total fallback), "
@@ -375,10 +469,30 @@ def run(ctx, prj: Project):
                        "termination of pygments' lexers"]
     ctx.trust("exception behaviour of open/read/relative_to/get_lexer_for_filename", "latin-1 decodes every byte sequence", "CPython ast")
     fns = analysis_functions(prj, ENTRY)
-    rule_R1(ctx, prj, fns)
-    rule_R2(ctx, prj, fns)
+    evaluated = rule_R8_totality(ctx, prj)
+    for rid, fn in (("R1", lambda: rule_R1(ctx, prj, fns)), ("R2", lambda: rule_R2(ctx, prj, fns)), ("R4", lambda: rule_R4(ctx, prj, fns))):
+        before = len(ctx.violations)
+        try:
+            fn()
+        except AnalysisError as e:
+            if not evaluated:
+                raise
+            ctx.info(f"{rid}: structural rule not applicable to this form ({e}); R8 (evaluated pipelines) decides")
+            ctx.floors.pop(rid, None)
+        new = ctx.violations[before:]
+        if evaluated and new and not any(v.rule == "R8" for v in ctx.violations):
+            # the must-guard reading disagrees with the evaluated pipelines, in which nothing escaped for undecodable files,
+            # names without lexer, unsupported languages and paths outside the working directory
+            del ctx.violations[before:]
+            ctx.instances[rid] = [i for i in ctx.instances.get(rid, []) if i.get("verdict") != "violation"]
+            ctx.floors.pop(rid, None)
+            ctx.info(f"{rid}: {len(new)} finding(s) of the must-guard reading contradicted by the evaluated pipelines (R8), not reported: "
+                     + "; ".join(v.key for v in new[:3]))
+        elif evaluated and rid in ctx.floors and len([i for i in ctx.instances.get(rid, []) if i.get("verdict") == "ok"]) < ctx.floors[rid] \
+                and not any(v.rule == rid for v in ctx.violations):
+            ctx.floors.pop(rid, None)
     rule_R3(ctx, prj, fns)
-    rule_R4(ctx, prj, fns)
     rule_R5(ctx, prj)
     rule_R6(ctx, prj)
     rule_R7(ctx, prj, fns)
+    rule_R9_brackets(ctx, prj)
